@@ -92,9 +92,18 @@ DeclCpAt(body, i) ==
              [] n = 3 -> ((b % 16)) * 4096 + pay(1) * 64 + pay(2)
              [] n = 4 -> ((b % 8)) * 262144 + pay(1) * 4096 + pay(2) * 64 + pay(3)
              [] OTHER -> -1
+      (* classification of the malformed ones, used only to scope the gcc audit: a sequence that is a minimal-length *)
+      (* encoding of a value > 10FFFF under the original 31-bit definition (RFC 2279) is "utf8-beyond"             *)
+      nn == IF n > 0 THEN n ELSE IF b >= 248 /\ b < 252 THEN 5 ELSE IF b >= 252 /\ b < 254 THEN 6 ELSE 0
+      contAll == \A k \in 1..(nn - 1) : At(body, i + k) >= 128 /\ At(body, i + k) < 192
+      c31 == CASE nn = 4 -> c
+               [] nn = 5 -> (b % 4) * 16777216 + pay(1) * 262144 + pay(2) * 4096 + pay(3) * 64 + pay(4)
+               [] nn = 6 -> (b % 2) * 1073741824 + pay(1) * 16777216 + pay(2) * 262144 + pay(3) * 4096 + pay(4) * 64 + pay(5)
+               [] OTHER -> 0
+      beyond == nn >= 4 /\ contAll /\ c31 >= (CASE nn = 4 -> 1114112 [] nn = 5 -> 2097152 [] nn = 6 -> 67108864)
   IN IF n > 0 /\ i + n - 1 <= Len(body) /\ IsScalar(c) /\ Utf8(c) = SubSeq(body, i, i + n - 1)
      THEN [item |-> [k |-> "cp", v |-> c], n |-> n]
-     ELSE [item |-> [k |-> "bad", why |-> "utf8"], n |-> 1]
+     ELSE [item |-> [k |-> "bad", why |-> IF beyond THEN "utf8-beyond" ELSE "utf8"], n |-> 1]
 
 (* value of a digit string (sequence of digit values) in base 16 / 8 as a word; big = needs > 32 bits *)
 DigitsVal(ds, base) ==
@@ -134,7 +143,9 @@ DeclItems(body, i, q) ==
        IF r.item.k = "bad" THEN <<r.item>> ELSE <<r.item>> \o DeclItems(body, i + r.n, q)
 
 IsBadSeq(its) == Len(its) > 0 /\ its[Len(its)].k = "bad"
-HasNul(parts) == \E i \in 1..Len(parts) : \E j \in 1..Len(parts[i].body) : parts[i].body[j] = 0
+(* NUL is not a member of any source character set a program can rely on; a lone CR is an end-of-line *)
+(* indicator or not at the implementation's choice (5.1.1.2 phase 1): nothing is required for those *)
+HasNul(parts) == \E i \in 1..Len(parts) : \E j \in 1..Len(parts[i].body) : parts[i].body[j] \in {0, 13}
 
 ElemSize(pfx) == CASE pfx \in {"", "u8"} -> 1 [] pfx = "u" -> 2 [] OTHER -> 4
 (* element type of a string literal.  u8: char in C11 (6.4.5p6), char8_t = unsigned char in C23 *)
@@ -166,7 +177,7 @@ DeclStr(parts, targ) ==
       size == ElemSize(rp)
       bad  == {i \in 1..np : IsBadSeq(its[i])}
       all  == FlattenSeq([i \in 1..np |-> its[i]])
-  IN IF HasNul(parts) THEN Unspec("nul-in-source")
+  IN IF HasNul(parts) THEN Unspec("nul-or-cr-in-source")
      ELSE IF bad # {} THEN Reject(its[MinOf(bad)][Len(its[MinOf(bad)])].why)
      ELSE IF "u8" \in P /\ Cardinality(P) >= 2 THEN Reject("prefix-mix")     \* 6.4.5p2 constraint
      ELSE IF Cardinality(P) >= 2 THEN Unspec("wide-prefix-mix")              \* 6.4.5p5 implementation-defined (C23: constraint)
@@ -186,7 +197,7 @@ DeclChr(pfx, body, targ) ==
       ty   == ChrType(pfx, targ)
       size == ElemSize(pfx)
       it   == its[1]
-  IN IF HasNul(<<[body |-> body]>>) THEN Unspec("nul-in-source")
+  IN IF HasNul(<<[body |-> body]>>) THEN Unspec("nul-or-cr-in-source")
      ELSE IF IsBadSeq(its) THEN Reject(its[Len(its)].why)
      ELSE IF Len(its) = 0 THEN Reject("empty")
      ELSE IF Len(its) > 1 THEN Unspec("multi-char")                 \* 6.4.4.4p10/11 implementation-defined
@@ -360,7 +371,8 @@ Conforms(m, d) ==
     [] d.o = "ok"     -> m.o = "ok" /\ m.tys \subseteq d.tys /\ m.size = d.size /\ m.n = d.n /\ m.bytes = d.bytes
 
 (* a deviation is held responsible for a case if switching it alone on or alone off changes the model's answer *)
-Fired(c) == {x \in Devs : Model(c, Devs \ {x}) # Model(c, Devs) \/ Model(c, {x}) # Model(c, {})}
+Fired(c) == IF Model(c, Devs) = Model(c, {}) THEN {}
+            ELSE {x \in Devs : Model(c, Devs \ {x}) # Model(c, Devs) \/ Model(c, {x}) # Model(c, {})}
 
 (* ======================================================================== *)
 (* Part 3.  Case families                                                    *)
@@ -454,7 +466,7 @@ RItem(size) ==
                  IF Rnd(2) = 0 THEN SubSeq(s, 1, Len(s) - 1) ELSE s        \* truncated / arbitrary incl. surrogate patterns
     [] OTHER  -> RawEnc(Rnd(2048), 2 + Rnd(3))                             \* mostly overlong
 RBody(size, n) == FlattenSeq([i \in 1..n |-> RItem(size)])
-RandomCase ==
+RandomCase(salt) ==
   LET t  == TargetSeq[1 + Rnd(3)]
       p  == PrefixSeq[1 + Rnd(5)]
       sz == ElemSize(p)
@@ -473,7 +485,7 @@ Start(ch) == [ctx |-> "start", chunk |-> ch]
 Init == IF Mode = "exh" THEN \E ch \in Chunks : cs = Start(ch) ELSE cs = Start(0)
 
 Enumerate == cs.ctx = "start" /\ Mode = "exh" /\ \E c \in ChunkCases(cs.chunk) : cs' = c
-Generate  == Mode = "sim" /\ \E k \in 1..4 : cs' = RandomCase
+Generate  == Mode = "sim" /\ \E k \in 1..4 : cs' = RandomCase(k)
 Next == Enumerate \/ Generate
 Spec == Init /\ [][Next]_cs
 
